@@ -9,7 +9,14 @@ def beh_text(b, rng=None, canonical=True):
     return [render_tokens(p["toks"], rng, canonical) for p in b["parses"]]
 
 
+# "mixN": an empty configuration (newlines and a comment: accepted, changes nothing - the specification's parse of
+# the empty text) is parsed first through one entry point, then the behaviour's texts through another one
+MIXES = {"mix0": ("file", "buf"), "mix1": ("buf", "fp"), "mix2": ("fp", "file")}
+PRELUDE = "\n\n/* c */\n\n"
+
+
 def build_script(b, schemas, texts, extra_before=None, roundtrip=False, via="buf"):
+    vias = (MIXES[via][1],) if via in MIXES else (via,)
     sid = b["sid"]
     pc = b["pcfg"]
     lines = schema_lines("S", schemas[sid])
@@ -19,7 +26,16 @@ def build_script(b, schemas, texts, extra_before=None, roundtrip=False, via="buf
     lines.append("init c1 S %d" % ctx_flags(pc))
     if extra_before:
         lines += extra_before
+    if via in MIXES:
+        pv = MIXES[via][0]
+        if pv == "fp":
+            lines.append("parsefp c1 %s" % enc(PRELUDE))
+        elif pv == "file":
+            lines += ["fs file $R/pre.conf %s" % enc(PRELUDE), "parsefile c1 $R/pre.conf"]
+        else:
+            lines.append("parsebuf c1 %s" % enc(PRELUDE))
     for k, t in enumerate(texts):
+        via = vias[k % len(vias)]
         if via == "fp":
             lines.append("parsefp c1 %s" % enc(t))              # cfg_parse_fp on a stream
         elif via == "file":
@@ -136,14 +152,14 @@ def replay(verdict, exe, res, aspects, pol=None, seed=0, renderings=("canonical"
     n = 0
     for b in behs:
         for r in renderings:
-            canonical = r in ("canonical", "fp", "file")
+            canonical = r in ("canonical", "fp", "file") or r in MIXES
             try:
                 texts = beh_text(b, rng, canonical)
             except ValueError:
                 continue
             bid = "b%d" % n
             n += 1
-            via = r if r in ("fp", "file") else "buf"
+            via = r if r in ("fp", "file") or r in MIXES else "buf"
             scripts.append((bid, build_script(b, res.schemas, texts, extra_before, "roundtrip" in aspects, via)))
             meta[bid] = (b, texts, via)
     results = run_behaviours(exe, scripts, tag)
@@ -151,7 +167,8 @@ def replay(verdict, exe, res, aspects, pol=None, seed=0, renderings=("canonical"
     nontrivial = set()
     for bid, (b, texts, via) in meta.items():
         g = results.get(bid)
-        desc = short(b, texts) + ("" if via == "buf" else " [via cfg_parse%s]" % ("_fp" if via == "fp" else ""))
+        desc = short(b, texts) + ("" if via == "buf" else " [via %s]" % " after an empty text via ".join(
+            {"buf": "cfg_parse_buf", "fp": "cfg_parse_fp", "file": "cfg_parse"}[x] for x in reversed(MIXES.get(via, (via,)))))
         if g is None:
             raise ModelError("behaviour %s produced no output" % bid)
         verdict.cov["traces_validated_against_impl"] += 1
@@ -164,13 +181,20 @@ def replay(verdict, exe, res, aspects, pol=None, seed=0, renderings=("canonical"
                               dict(replay_obj, crash=g["crash"]))
             continue
         plines = [l for l in g["lines"] if l["cmd"] in ("parsebuf", "parsefp", "parsefile")]
+        if via in MIXES:
+            if not plines or plines[0]["ret"] != 0 or plines[0]["diag"]:
+                verdict.violation("%s:prelude:%s" % (sigprefix, via), "an empty text (newlines and a comment) was not accepted silently via %s: %r" % (
+                    MIXES[via][0], plines[0] if plines else None), replay_obj)
+                continue
+            plines = plines[1:]
         if len(plines) != len(b["parses"]):
             raise ModelError("behaviour %s: expected %d parse observations, got %d" % (bid, len(b["parses"]), len(plines)))
         clean = True
         for p, line in zip(b["parses"], plines):
             diffs = []
             check_parse_result(p["exp"], line, diffs, aspects, pol, clean, g["begin"]["out"], g["begin"].get("scratch"),
-                               {"buf": "[buf]", "fp": "FILE", "file": "$R/main%d.conf" % plines.index(line)}[via])
+                               {"buf": "[buf]", "fp": "FILE", "file": "$R/main%d.conf" % plines.index(line)}[
+                                   MIXES[via][1] if via in MIXES else via])
             if p["exp"]["status"] != "ok":
                 clean = False
             if diffs:
